@@ -31,9 +31,16 @@ type EnumSpec struct {
 }
 
 // RunEnum distributes the cases over the worker pool; a chunk whose worker dies is bisected down to single cases.
-func RunEnum(specs ...EnumSpec) int {
+func RunEnum(specs ...EnumSpec) int { return runEnum("", specs...) }
+
+// RunEnumMerge runs an enumeration whose coverage is merged into the property's existing evidence file under the
+// given key (a second part of a check whose first part already wrote the file).
+func RunEnumMerge(prop, key string, specs ...EnumSpec) int { return runEnum(key, specs...) }
+
+func runEnum(mergeKey string, specs ...EnumSpec) int {
 	spec0 := specs[0]
 	c := report.New(spec0.Prop, report.Tier(), spec0.Level, spec0.Budget)
+	c.MergeKey = mergeKey
 	pool := explore.NewPool(workers())
 	defer pool.Close()
 	total := 0
